@@ -4,6 +4,7 @@ import json
 import os
 import shutil
 
+import code_tie
 import vlib
 from vlib import coq_str
 
@@ -32,6 +33,7 @@ META = {
 MODEL = ["theories/Caco/NamesCorr.vo"]
 PROOFS = ["theories/Props/C12.vo"]
 STATEMENT_FILES = ["theories/Props/C12.v", "theories/Caco/NamesGen.v"]
+SEMANTIC_TIE = code_tie.functions("C12")   # Go bodies proved equal to the model (Props/C12Code.v)
 
 ERR = {"": 0, "nofiles": 1, "listerr": 2, "badpat": 3}
 KIND = {"f": "TFile", "d": "TDir", "lf": "TLinkFile", "ld": "TLinkDir", "lb": "TLinkBad"}
@@ -344,6 +346,7 @@ def run(ck):
         ck.discharged = list(ck.obligations)
     if ck.thorough and proofs_ok:
         ck.coqchk(["Verif.Props.C12"])
+    code_tie.run(ck, "C12")
 
     scratch = os.environ.get("VERIF_SCRATCH") or os.path.join(vlib.BUILD, "scratch")
     scratch = os.path.join(scratch, "c12")
